@@ -376,6 +376,8 @@ def run_check(prop, harnesses, tier, seed, level_text='', jobs=None, time_cap=No
             except Exception as e:
                 mine = {'end': 'exception', 'msg': '%s: %s' % (type(e).__name__, e)}
             conf_total += 1
+            if isinstance(mine, dict) and mine.get('end') == 'panic' and isinstance(nat, dict) and nat.get('panic'):
+                continue        # both panic: the model agrees with the build; the symbolic stage reports the panic itself
             if not h.native_matches(case, j, nat, mine):
                 conf_bad.append(dict(harness=h.name, case=case, inputs=j, native=nat, mirsym=mine))
     if conf_bad:
